@@ -115,6 +115,9 @@ NONPATH_KW = {"mode", "encoding", "errors", "newline", "buffering", "flags", "op
               "follow_symlinks", "ns", "times"}
 
 
+PROBING = [False]   # true while a returned filesystem object is being exercised (see exercise_returned_fs)
+
+
 class Recorder:
     def __init__(self):
         self.active = False
@@ -128,7 +131,7 @@ class Recorder:
                 x = os.fsdecode(os.fspath(x))
             except TypeError:
                 return
-        self.items.append((fn, x))
+        self.items.append((("probe:" + fn) if PROBING[0] else fn, x))
 
     def take(self):
         out, self.items = self.items, []
@@ -492,10 +495,34 @@ class _Lazy(Exception):
         self.e = e
 
 
+def exercise_returned_fs(v):
+    """a filesystem object handed back by a call (opendir, makedir, makedirs: a SubFS view) must be
+    confined like the object it came from: use it a little while the recorders are still active, so
+    that every path it sends to its parent / to the OS is judged by the same rules"""
+    try:
+        from fs.base import FS
+    except Exception:  # pragma: no cover
+        return
+    if not isinstance(v, FS):
+        return
+    PROBING[0] = True
+    try:
+        for call in (lambda: v.listdir("/"), lambda: v.exists("zz-probe"), lambda: v.getinfo("/"),
+                     lambda: v.isdir("sub"), lambda: v.writebytes("zz-probe", b""), lambda: v.remove("zz-probe"),
+                     lambda: v.hassyspath("/") and v.getsyspath("/")):
+            try:
+                call()
+            except Exception:
+                pass
+    finally:
+        PROBING[0] = False
+
+
 def invoke(fsobj, method, kwargs):
     """('ok', canonical value) | ('err', class name, is-fs.errors)"""
     try:
         v = getattr(fsobj, method)(**kwargs)
+        exercise_returned_fs(v)
         return ("ok", canon_value(v))
     except _Lazy as l:
         return ("err", type(l.e).__name__, is_fs_error(l.e))
@@ -607,6 +634,8 @@ def sweep(rep, cfg, paths, per_method_reset=600, only=None):
                         if not climbing and len(pnames) == 1 and cfg.predict:
                             pred = cfg.predict(p)
                             for (fn, sp) in recs:
+                                if fn.startswith("probe:"):
+                                    continue   # calls made through a returned view: judged for confinement only
                                 got = os_comps(sp)
                                 k = min(len(got), len(pred))
                                 rel_ok = got[:k] == pred[:k]
@@ -983,7 +1012,9 @@ def mount_rule(received, user_path):
     got = ref_resolve(received)
     if got is None:
         return False, "climbs"
-    if received.startswith("/") or received != "/".join(got):
+    # (a SubFS handed back by MountFS.makedir/opendir is a view of the *member* and addresses it with
+    # absolute member paths: a leading slash is still a path inside that member's own root)
+    if received.lstrip("/") != "/".join(got):
         return False, "not a normalised mount-relative path"
     return True, ""
 
